@@ -473,6 +473,26 @@ def gen_app(out):
     stops = [e.value for e in ps[1].value.comparators[0].elts]
     def guard(g, body):
         return f'match iv with None => {"Some false" if g else "None"} | Some v => {body} end'
+    # TelApp.main: which texts are read and handed to transform(), and how the options reach imain
+    mn = find_fun(tree, 'main', 'TelApp')
+    mb = [x for x in mn.body if not (isinstance(x, ast.Expr) and isinstance(x.value, ast.Constant))]
+    if not (len(mb) == 2 and isinstance(mb[0], ast.With) and ast.unparse(mb[0].items[0]) == 'ast.ProgramBuilder(control) as bld' and len(mb[0].body) == 3):
+        raise Unsupported('TelApp.main shape')
+    w = mb[0].body
+    if ast.unparse(w[0]) != 'files = [open(path) for path in files]':
+        raise Unsupported('TelApp.main: opening the files: ' + ast.unparse(w[0]))
+    if not (isinstance(w[1], ast.If) and not w[1].orelse and len(w[1].body) == 1 and ast.unparse(w[1].body[0]) == 'files.append(sys.stdin)'):
+        raise Unsupported('TelApp.main: standard input: ' + ast.unparse(w[1]))
+    cm = Ctx({'nfiles': 'nat'}, subst={'len(files)': ':(Some (Z.of_nat nfiles))'})
+    use_stdin = boolx(cm, w[1].test)
+    if ast.unparse(w[2]) != 'future_sigs, program_parts = _tf.transform([path.read() for path in files], bld.add)':
+        raise Unsupported('TelApp.main: call of transform: ' + ast.unparse(w[2]))
+    if ast.unparse(mb[1]) != 'imain(control, future_sigs, program_parts, self.__on_model, self.__imin, self.__imax, self.__istop)':
+        raise Unsupported('TelApp.main: call of imain: ' + ast.unparse(mb[1]))
+    out.append(f'''(* ---- telingo/__init__.py: TelApp.main (the statements are checked textually: every file is opened, standard input is added under the
+   condition below, every source is read into a text of its own, the texts go to transform() in that order, the three options go to imain in the
+   order imin, imax, istop) ---- *)
+Definition main_uses_stdin_gen (nfiles : nat) : option bool := {use_stdin}.''')
     out.append(f'''(* ---- telingo/__init__.py: TelApp.print_model and the option parsers ---- *)
 Definition printable_gen (is_fun : bool) (nargs : nat) (last_is_num : bool) : option bool := {printable}.
 Definition visible_gen (dunder : bool) : option bool := {visible}.
